@@ -7,6 +7,13 @@
 #![allow(unused, clippy::all, clippy::pedantic, clippy::nursery, missing_docs)]
 extern crate std;
 use super::*;
+use crate::frame::{self, Frame};
+use crate::stream::MuxStream;
+use crate::ws::Message;
+use alloc::vec::Vec;
+use core::pin::Pin;
+use core::task::{ready, Context, Poll};
+use tokio::io::{AsyncBufRead, AsyncWrite};
 use crate::frame::OpCode;
 use crate::verif_common::*;
 use crate::{vassert, vfail};
